@@ -595,6 +595,19 @@ class Extractor:
             else:
                 self.out.add('impl%s vstd::std_specs::convert::FromSpecImpl<%s> for %s {\n    open spec fn obeys_from_spec() -> bool { false }\n    open spec fn from_spec(v: %s) -> Self { arbitrary() }\n}\n'
                              % (generics, arg, selfty_clean, arg), ('gen', 'from_spec default'))
+        if trait == 'TryFrom':
+            p = '%s::try_from%s' % (ty_short, suffix)
+            fs = None
+            for c in self.contracts_for(p):
+                if c.from_spec:
+                    fs = c.from_spec
+            arg = self.strip_paths_text(targs)
+            if fs:
+                self.out.add('impl%s vstd::std_specs::convert::TryFromSpecImpl<%s> for %s {\n    open spec fn obeys_try_from_spec() -> bool { true }\n    open spec fn try_from_spec(v: %s) -> Result<Self> { %s }\n}\n'
+                             % (generics, arg, selfty_clean, arg, fs), ('inj', 'from_spec ' + p, ''))
+            else:
+                self.out.add('impl%s vstd::std_specs::convert::TryFromSpecImpl<%s> for %s {\n    open spec fn obeys_try_from_spec() -> bool { false }\n    open spec fn try_from_spec(v: %s) -> Result<Self> { arbitrary() }\n}\n'
+                             % (generics, arg, selfty_clean, arg), ('gen', 'try_from_spec default'))
         self.out.add('impl%s %s for %s {\n' % (generics, trait_txt, selfty_clean), ('src', relfile, it.start))
         for m in methods:
             if m.kind == 'fn':
